@@ -18,7 +18,11 @@ class Recorder:
         msg = kwargs.get("message")
         ok = isinstance(msg, str) and msg.strip() != ""
         try:
-            val = int(round(float(pm) * 1000))
+            x = float(pm)
+            # the unit interval is checked on the float itself: 1.0000000000000007 is outside
+            val = 1001 if x > 1.0 else (-1 if x < 0.0 else int(round(x * 1000)))
+            if x != x:
+                val = -777777
         except Exception:  # noqa: BLE001
             val = -999999
         if not ok:
